@@ -27,6 +27,103 @@ static void deflate_part(void)
 				}
 }
 
+/* layers 1 and 2 and the deviation-bounded search for LONGER inputs (the body kernels only run from 288 bytes of look-ahead on) */
+static void deflate_layers(void)
+{
+	static uint8_t *LIN;
+	static const int lens[] = { 300, 600, 4096, 70000 };
+	static const int pats[] = { PAT_TEXT, PAT_XS, PAT_ZERO, PAT_P258 };
+	static const int cpus[] = { CPU_BASE, CPU_SSE, CPU_AVX2, CPU_AVX512G2 };
+	static const int dev_in[] = { 0, 1, 7, 8, 9, 300, -1 }, dev_out[] = { 0, 1, 7, 8, 9, 15, 16, 17, 274, -1 };
+	if (!LIN)
+		LIN = malloc(70000);
+	if (!DST) {
+		DST = g_persist(sizeof *DST, G_END);
+		DLB = g_persist(ISAL_DEF_LVL3_MIN, G_END);
+	}
+	uint64_t unit = 0;
+	for (int li = 0; li < (v_thorough ? 4 : 3); li++)
+		for (int pi = 0; pi < (v_thorough ? 4 : 2); pi++)
+			for (int level = 0; level <= 3; level++)
+				for (int ci = 0; ci < 4; ci++) {
+					if (!v_mine(unit++))
+						continue;
+					if (nfail > 20 || v_deadline_hit())
+						return;
+					int len = lens[li];
+					fill_pattern(LIN, len, pats[pi], len + pi);
+					DIN = LIN; DINLEN = len; DLEVEL = level; DGZ = (li + pi) % 2 ? IGZIP_GZIP : IGZIP_ZLIB; DLBS = lvl_min[level];
+					cpu_set_level(cpus[ci]);
+					SE_CONTIG = (li + pi + level + ci) % 2; /* chunks cut from one contiguous caller buffer, or a fresh mapping per chunk */
+					g_strict_free = 1;
+					/* layer 1: every single split point of the input (first call gets a bytes and o output bytes), then generous calls */
+					for (int a = 0; a <= len; a++) {
+						if (len > 600 && !(a <= 20 || len - a <= 20 || (a >= 280 && a <= 300) || a % 509 == 0 || (a >= 32760 && a <= 32780) || (a >= 65530 && a <= 65540)))
+							continue;
+						for (int oi = 0; oi < 10; oi++) {
+							if (len > 600 && oi % 3 && a > 20)
+								continue;
+							snprintf(ctxdesc, sizeof ctxdesc, "layer1 input=%s:%d level=%d wrapper=%s cpu=%s first-call in=%d out=%d", pat_name[pats[pi]], len, level, gz_name[DGZ], cpu_level_name[cpus[ci]], a, dev_out[oi]);
+							def_reset(4);
+							ex_depth = 0;
+							int r = def_call(a, dev_out[oi], NO_FLUSH, 0, NULL);
+							if (r == EX_NEXT)
+								r = def_finish_generously(NULL, 12);
+							v_count("layer1_single_split_runs", 1);
+							v_eval();
+						}
+					}
+					/* layer 2: uniform (c_in, c_out) on every call, for every flush mode */
+					for (int ia = 1; ia < 7; ia++)
+						for (int oa = 1; oa < 10; oa++)
+							for (int fl = 0; fl < 3; fl++) {
+								if (len > 600 && ((dev_in[ia] >= 0 && dev_in[ia] < 300) || (dev_out[oa] >= 0 && dev_out[oa] < 274)))
+									continue; /* tiny chunks on long inputs are quadratic; covered on the short ones */
+								if (fl && dev_in[ia] >= 0 && dev_in[ia] < 7)
+									continue;
+								snprintf(ctxdesc, sizeof ctxdesc, "layer2%s input=%s:%d level=%d wrapper=%s cpu=%s uniform in=%d out=%d flush=%s", SE_CONTIG ? "(contiguous input)" : "", pat_name[pats[pi]], len, level, gz_name[DGZ], cpu_level_name[cpus[ci]], dev_in[ia], dev_out[oa],
+									 flush_name[fl]);
+								def_reset(1 << 30);
+								int r = EX_NEXT, guard = 0;
+								while (r == EX_NEXT && guard++ < 300000)
+									r = def_call(dev_in[ia], dev_out[oa], fl, 0, NULL);
+								if (r == EX_NEXT) {
+									char key[600];
+									snprintf(key, sizeof key, "deflate no-termination %s", ctxdesc);
+									v_violation(key, "not finished after %d calls", guard);
+									nfail++;
+								}
+								v_count("layer2_uniform_runs", 1);
+								v_eval();
+							}
+					/* deviation-bounded: default = generous call; one deviation (any alphabet choice, any flush, eos late) at every call index */
+					{
+						int maxcalls = 6;
+						for (int at = 0; at < maxcalls; at++)
+							for (int ia = 0; ia < 7; ia++)
+								for (int oa = 0; oa < 10; oa++)
+									for (int fl = 0; fl < 3; fl++)
+										for (int late = 0; late < 2; late++) {
+											snprintf(ctxdesc, sizeof ctxdesc, "deviation input=%s:%d level=%d wrapper=%s cpu=%s at-call=%d in=%d out=%d flush=%s%s", pat_name[pats[pi]], len, level, gz_name[DGZ],
+												 cpu_level_name[cpus[ci]], at, dev_in[ia], dev_out[oa], flush_name[fl], late ? " eos-late" : "");
+											def_reset(4);
+											int r = EX_NEXT;
+											for (int c = 0; c < at && r == EX_NEXT; c++)
+												r = def_call(97, 61, NO_FLUSH, 0, NULL); /* a fixed non-generous prefix so that the deviation lands mid-stream */
+											if (r == EX_NEXT)
+												r = def_call(dev_in[ia], dev_out[oa], fl, late, NULL);
+											if (r == EX_NEXT || r == EX_SKIP)
+												r = def_finish_generously(NULL, 12);
+											v_count("deviation_runs", 1);
+											v_eval();
+										}
+					}
+					g_strict_free = 0;
+					SE_CONTIG = 0;
+					v_nontrivial(v_hash(ctxdesc, strlen(ctxdesc), 21));
+				}
+}
+
 int main(int argc, char **argv)
 {
 	v_init(argc, argv, "C07");
@@ -36,6 +133,8 @@ int main(int argc, char **argv)
 		inflate_part();
 	if (!v_part || !strcmp(v_part, "deflate"))
 		deflate_part();
+	if (!v_part || !strcmp(v_part, "deflate-layers"))
+		deflate_layers();
 	if (v_shard == 0) {
 		v_note("state = byte image of the caller-owned context (+ level buffer) and the harness cursor; key masks only regions the structure declares dead (tmp buffers beyond their valid counts); every transition is a real API call on fresh exact-size end-flush mappings, recycled mappings are PROT_NONE");
 		v_note("progress: from EVERY newly discovered state, generous calls (all remaining input, ample output, end_of_stream) must reach FINISH/ZSTATE_END within a fixed horizon with the correct result");
